@@ -163,6 +163,44 @@ theorem not_takes_comparison (o : BinOp) (t1 t2 : Str) (a b : Atom) :
   rw [line1_map]
   cases o <;> simp [pr, fitsBin, fitsPre, lvl, plvl, preTok]
 
+/-! ### non-vacuity and negative witnesses (tests, not proofs of the property) -/
+
+def n1 : Atom := .num [49] 0x3ff0000000000000
+def n2 : Atom := .num [50] 0x4000000000000000
+def n3 : Atom := .num [51] 0x4008000000000000
+def tPlus : Str := [43]
+def tTimes : Str := [42]
+def tMinus : Str := [45]
+
+/-- `1 + 2 * 3` : the hypothesis of `pratt_print` is satisfiable, and the tree is the expected one -/
+example : pr (.bin .plus tPlus (.atom n1) (.bin .times tTimes (.atom n2) (.atom n3))) .top .none
+    = [.atom n1, .op .plus tPlus, .atom n2, .op .times tTimes, .atom n3] := by decide
+
+example : Impl.parse T (program (line1 [.atom n1, .op .plus tPlus, .atom n2, .op .times tTimes, .atom n3]) 1)
+    = .ok (.bin .plus tPlus (.atom n1) (.bin .times tTimes (.atom n2) (.atom n3))) := by rfl
+
+/-- `(1 + 2) * 3` needs its brackets; `1 - (2 - 3)` too (left associativity) -/
+example : pr (.bin .times tTimes (.bin .plus tPlus (.atom n1) (.atom n2)) (.atom n3)) .top .none
+    = [.lp, .atom n1, .op .plus tPlus, .atom n2, .rp, .op .times tTimes, .atom n3] := by decide
+
+example : pr (.bin .minus tMinus (.atom n1) (.bin .minus tMinus (.atom n2) (.atom n3))) .top .none
+    = [.atom n1, .op .minus tMinus, .lp, .atom n2, .op .minus tMinus, .atom n3, .rp] := by decide
+
+/-- the same tokens spread over three lines -/
+example : Impl.parse T [⟨.atom n1, 1⟩, ⟨.op .plus tPlus, 2⟩, ⟨.atom n2, 2⟩, ⟨.op .times tTimes, 3⟩, ⟨.atom n3, 3⟩, ⟨.eof, 3⟩]
+    = .ok (.bin .plus tPlus (.atom n1) (.bin .times tTimes (.atom n2) (.atom n3))) := by rfl
+
+/-- the line rule is live: `1 (2)` on one line is an error, with `(2)` on the next line the
+    expression ends after `1` (a second statement follows — outside the fragment) -/
+example : Impl.parse T [⟨.atom n1, 1⟩, ⟨.lp, 1⟩, ⟨.atom n2, 1⟩, ⟨.rp, 1⟩, ⟨.eof, 1⟩] = .error .noLed := by rfl
+example : Impl.parse T [⟨.atom n1, 1⟩, ⟨.lp, 2⟩, ⟨.atom n2, 2⟩, ⟨.rp, 2⟩, ⟨.eof, 2⟩] = .error .unsupported := by rfl
+
+/-- redundant brackets: `((1)) + (2 * 3)` is an admissible writing of `1 + 2 * 3` -/
+example : Prints (.bin .plus tPlus (.atom n1) (.bin .times tTimes (.atom n2) (.atom n3))) .top .none
+    ([.lp, .lp, .atom n1, .rp, .rp] ++ (.op .plus tPlus :: [.lp, .atom n2, .op .times tTimes, .atom n3, .rp])) :=
+  Prints.bin rfl (Prints.paren (ts := [.lp, .atom n1, .rp]) (Prints.paren (ts := [.atom n1]) Prints.atom))
+    (Prints.paren (ts := [.atom n2] ++ (.op .times tTimes :: [.atom n3])) (Prints.bin rfl Prints.atom Prints.atom))
+
 /-! ## Semantics -/
 
 section Sem
@@ -301,5 +339,49 @@ theorem wrong_kind_is_error (o : BinOp) (t : Str) (l r : Expr) (ho : BinOp.arith
         cases v1 <;> simp [Impl.binOp, Impl.numOp, Impl.boolOp, Out.isVal]
 
 end Sem
+
+/-! ### non-vacuity of the semantic theorems: a toy carrier (integers) -/
+
+def toyNum : Num Int where
+  ofBits := fun b => (b : Int)
+  add := (· + ·)
+  sub := (· - ·)
+  mul := (· * ·)
+  div := Int.tdiv
+  neg := fun a => -a
+  floor := id
+  lt := fun a b => decide (a < b)
+  le := fun a b => decide (a ≤ b)
+  eq := fun a b => decide (a = b)
+  toInt := id
+  ofInt := id
+  text := fun a => if a = 10 then [49, 48] else [57]   -- "10" / "9"
+
+def toy : Cfg Int where
+  C := toyNum
+  re := fun _ _ => none
+  var := fun _ => .null
+
+def isErr {N : Type} (k : ErrKind) (name : Str) : Out N → Bool
+  | .err k' n => k = k' ∧ n = name
+  | .val _ => false
+
+def isBoolVal {N : Type} (b : Bool) : Out N → Bool
+  | .val (.bool b') => b = b'
+  | _ => false
+
+/-- `"a" + 1` : NotANumber naming `a` (hypotheses of `wrong_kind_left_arith` are satisfiable) -/
+example : isErr .notANumber [97] (Impl.eval toy (.bin .plus [43] (.atom (.str [97])) (.atom (.num [49] 1)))) = true := by
+  decide
+/-- `false and 5` : NotABoolean naming `5` — no short circuit -/
+example : isErr .notABoolean [53] (Impl.eval toy (.bin .and [97] (.atom (.fls [102])) (.atom (.num [53] 5)))) = true := by
+  decide
+/-- `"10" < 9` compares the texts: true; `10 < 9` compares the numbers: false -/
+example : isBoolVal true (Impl.eval toy (.bin .lt [60] (.atom (.str [49, 48])) (.atom (.num [57] 9)))) = true := by decide
+example : isBoolVal false (Impl.eval toy (.bin .lt [60] (.atom (.num [49, 48] 10)) (.atom (.num [57] 9)))) = true := by decide
+/-- `5 % 0` is a runtime error, `[1] == [1]` is true -/
+example : isErr .runtime [] (Impl.eval toy (.bin .modint [37] (.atom (.num [53] 5)) (.atom (.num [48] 0)))) = true := by decide
+example : isBoolVal true (Impl.eval toy (.bin .eq [61] (.list (.cons (.atom (.num [49] 1)) .nil))
+    (.list (.cons (.atom (.num [49] 1)) .nil)))) = true := by decide
 
 end Ecal.Props.C03
